@@ -13,7 +13,7 @@ import (
 func init() { register("C13", checkC13) }
 
 func checkC13(r *Run) {
-	r.Explain = "Decides the clauses of C13 that are shape: GATE events rejected by the level gate never reach a sampler and DisableSampling(true) bypasses it (path table of (*Logger).should); BASIC the admit predicate of BasicSampler.Sample is extracted symbolically: N==0 → false, N==1 → true, otherwise (c mod N) == 1 with c the value returned by atomic.AddUint32(&s.counter, 1) — with a counter that only this fetch-add touches (A14) the k-th call sees c = k, so exactly the calls 1, N+1, 2N+1, … are admitted: ceil(k/N) of any k, the first included, however calls interleave; BURST BurstSampler.Sample admits under Burst>0 && Period>0 && inc()<=Burst, otherwise hands over to NextSampler.Sample(lvl) and rejects only when it is nil; inc() opens a window exactly when now >= resetAt (now = TimestampFunc().UnixNano(), resetAt loaded atomically), sets the count to 1 and the new end to now+Period, and otherwise fetch-adds the count; LEVEL LevelSampler pairs each level constant with its own sampler field, returns its answer, admits levels without one; A14 the counters, the window end, the global level and the sampling switch are accessed only through sync/atomic. BASIC also: exactly one atomic operation on the admitting path; GATE one-event-per-call: the self-finalising entry points create at most one event (one sampler decision) per call."
+	r.Explain = "Decides the clauses of C13 that are shape: GATE events rejected by the level gate never reach a sampler and DisableSampling(true) bypasses it (path table of (*Logger).should); BASIC the admit predicate of BasicSampler.Sample is extracted symbolically: N==0 → false, N==1 → true, otherwise (c mod N) == 1 with c the value returned by atomic.AddUint32(&s.counter, 1) — with a counter that only this fetch-add touches (A14) the k-th call sees c = k, so exactly the calls 1, N+1, 2N+1, … are admitted: ceil(k/N) of any k, the first included, however calls interleave; BURST BurstSampler.Sample admits under Burst>0 && Period>0 && inc()<=Burst, otherwise hands over to NextSampler.Sample(lvl) and rejects only when it is nil; inc() opens a window exactly when now >= resetAt (now = TimestampFunc().UnixNano(), resetAt loaded atomically), sets the count to 1 and the new end to now+Period, and otherwise fetch-adds the count; LEVEL LevelSampler pairs each level constant with its own sampler field, returns its answer, admits levels without one; A14 the counters, the window end, the global level and the sampling switch are accessed only through sync/atomic. BASIC also: exactly one atomic operation on the admitting path; GATE disabled-never-sampled: an exported entry point that passes a caller-chosen level to a sampler does so only under a test that excludes Disabled (the largest level, which the gate's comparisons never reject); GATE one-event-per-call: the self-finalising entry points create at most one event (one sampler decision) per call."
 	r.NotDec = "BurstSampler under concurrent callers racing on a window boundary, counter wrap-around after 2^32 calls, RandomSampler's distribution: not decided. The window semantics over arbitrary (non-monotonic) clock histories is decided only as far as the extracted per-call transition above determines it."
 	r.Assume = []string{"sync/atomic fetch-add returns distinct consecutive values", "user samplers behind NextSampler are outside the claim"}
 	p := r.Use("J")
@@ -27,7 +27,8 @@ func checkC13(r *Run) {
 	ruleLevelSlots(r, p, "LEVEL", "LevelSampler", "Sample", "Sampler", 1, "result")
 	ruleA14(r, p, "A14", map[string]bool{"": true}, []string{"BasicSampler.counter", "BurstSampler.counter", "BurstSampler.resetAt", "@SetGlobalLevel|GlobalLevel", "@DisableSampling|samplingDisabled"})
 	ruleOneEventPerCall(r, p)
-	r.Floor("GATE", 7)
+	ruleDisabledNeverSampled(r, p)
+	r.Floor("GATE", 8)
 	r.Floor("SWITCH", 2)
 	r.Floor("BASIC", 4)
 	r.Floor("BURST", 10)
@@ -416,5 +417,82 @@ func ruleOneEventPerCall(r *Run, p *Prog) {
 	}
 	if n < 5 {
 		r.Fail("GATE", "one-event-per-call/floor", "-", fmt.Sprintf("only %d self-finalising entry points found (package log's and Logger's Print family expected)", n))
+	}
+}
+
+// ruleDisabledNeverSampled: Disabled is the largest Level, so the gate's "below the logger's level /
+// below the global level" comparisons never reject it; an entry point that lets its caller choose the
+// level must keep Disabled away from the sampler by an explicit test (WithLevel(Disabled) yields no
+// event — if it reached should(), it would pass both comparisons and consume sampler budget for an
+// event that is never written).
+func ruleDisabledNeverSampled(r *Run, p *Prog) {
+	lc := levelConsts(p)
+	dis, ok := lc["Disabled"]
+	lt := p.NamedType("", "Level")
+	wl := p.Method("", "Logger", "WithLevel")
+	if !r.Anchor(ok && lt != nil && wl != nil, "GATE", "const Disabled, type Level, (*Logger).WithLevel") {
+		return
+	}
+	excludes := func(v ssa.Value) func(op token.Token, x, y ssa.Value) bool {
+		return func(op token.Token, x, y ssa.Value) bool {
+			k, isC := constInt(y)
+			if !isC || stripChange(x) != v {
+				return false
+			}
+			switch op {
+			case token.NEQ:
+				return k == dis
+			case token.EQL:
+				return k != dis
+			case token.LSS:
+				return k <= dis
+			case token.LEQ:
+				return k < dis
+			}
+			return false
+		}
+	}
+	n := 0
+	for _, f := range p.RootViews([]string{"", "log", "hlog"}, "", nil) {
+		if f.Object() == nil || !f.Object().Exported() {
+			continue
+		}
+		var lvl []*ssa.Parameter
+		for _, pr := range f.Params {
+			if types.Identical(pr.Type(), lt) {
+				lvl = append(lvl, pr)
+			}
+		}
+		if len(lvl) == 0 || (f.Name() == "Sample" && f.Signature.Recv() != nil) {
+			continue // a sampler handing its argument to the next sampler is downstream of the gate
+		}
+		sites, bad, badPos := 0, "", ""
+		eachInstr(f, func(b *ssa.BasicBlock, i int, in ssa.Instruction) {
+			c, ok := in.(*ssa.Call)
+			if !ok || !c.Call.IsInvoke() || c.Call.Method.Name() != "Sample" || len(c.Call.Args) != 1 {
+				return
+			}
+			for _, pr := range lvl {
+				if stripChange(c.Call.Args[0]) != ssa.Value(pr) {
+					continue
+				}
+				sites++
+				if !hasCmp(necessaryCmps(f, c), excludes(pr)) && bad == "" {
+					bad, badPos = pr.Name(), p.Pos(c.Pos())
+				}
+			}
+		})
+		if sites == 0 && f.Name() != wl.Name() {
+			continue
+		}
+		n++
+		pos := p.Pos(f.Pos())
+		if bad != "" {
+			pos = badPos
+		}
+		r.Ob("GATE", FnName(f)+"/disabled-never-sampled", pos, bad == "", true, tern(bad == "", fmt.Sprintf("%d sampler call(s) receive the caller-chosen level, each control-dependent on a test that excludes Disabled (%d)", sites, dis), "the sampler is consulted with the caller-chosen level "+bad+" without a test that excludes Disabled: Disabled ("+itoa(int(dis))+") is above every level the gate compares with, so a "+f.Name()+"(Disabled) call — which can never produce output — passes the level gate and consumes sampler budget"))
+	}
+	if n == 0 {
+		r.Fail("GATE", "disabled-never-sampled/sites", "-", "no exported entry point with a Level parameter was judged")
 	}
 }
